@@ -322,9 +322,9 @@ impl<const H: usize> Reader<H> {
         offset: u64,
         flushed_offset: u64,
     ) -> Result<Record<'_, H>, ReadError> {
-        let record_header_buf = self
-            .read_ahead_buf
-            .read(&self.file, offset, RECORD_HEAD_SIZE)?;
+        let record_header_buf =
+            self.read_ahead_buf
+                .read(&self.file, offset, RECORD_HEAD_SIZE, flushed_offset)?;
 
         if is_truncation_marker(&record_header_buf[..RECORD_HEAD_SIZE]) {
             return Err(ReadError::TruncationMarker { offset });
@@ -355,9 +355,9 @@ impl<const H: usize> Reader<H> {
             return Err(ReadError::Crc32cMismatch { offset });
         }
 
-        let payload = self
-            .read_ahead_buf
-            .read(&self.file, payload_offset, payload_len)?;
+        let payload =
+            self.read_ahead_buf
+                .read(&self.file, payload_offset, payload_len, flushed_offset)?;
 
         let header = &payload[..H];
         let compressed_data = &payload[H..];
@@ -606,7 +606,13 @@ impl ReadAheadBuf {
         self.valid_len = 0;
     }
 
-    fn read(&mut self, file: &File, offset: u64, length: usize) -> Result<&[u8], ReadError> {
+    fn read(
+        &mut self,
+        file: &File,
+        offset: u64,
+        length: usize,
+        flushed_offset: u64,
+    ) -> Result<&[u8], ReadError> {
         let end_offset = offset + length as u64;
 
         // If offset is within the valid read-ahead range
@@ -616,7 +622,7 @@ impl ReadAheadBuf {
         }
 
         // Fill the read-ahead buffer for the requested offset & length
-        self.fill(file, offset, length)?;
+        self.fill(file, offset, length, flushed_offset)?;
 
         // Ensure we now have enough valid data
         if offset < self.offset || end_offset > (self.offset + self.valid_len as u64) {
@@ -631,7 +637,13 @@ impl ReadAheadBuf {
         Ok(&self.buf[start..start + length])
     }
 
-    fn fill(&mut self, file: &File, offset: u64, mut length: usize) -> Result<(), ReadError> {
+    fn fill(
+        &mut self,
+        file: &File,
+        offset: u64,
+        mut length: usize,
+        flushed_offset: u64,
+    ) -> Result<(), ReadError> {
         let end_offset = offset + length as u64;
 
         // Set the new read-ahead offset aligned to 64KB
@@ -659,7 +671,11 @@ impl ReadAheadBuf {
             total_read += bytes_read;
         }
 
-        self.valid_len = total_read;
+        // Only bytes below the flushed offset are immutable. The file is pre-allocated, so the
+        // read may return bytes beyond it that the writer has not written yet: they must not be
+        // served from the cache once later data is flushed.
+        let flushed_len = flushed_offset.saturating_sub(self.offset) as usize;
+        self.valid_len = total_read.min(flushed_len);
 
         Ok(())
     }
